@@ -36,14 +36,10 @@ try:
         out["tests_ok"] = t.returncode == 0
     out["checks"] = {}
     for c in checks:
-        evp = os.path.join(ROOT, "evidence", "%s.json" % c)
-        saved = open(evp).read() if os.path.exists(evp) else None
         t0 = time.time()
         r = subprocess.run([os.path.join(ROOT, "check"), c, tier], cwd=ROOT, env=dict(os.environ, VERIF_REPO=scratch), capture_output=True, text=True)
         mech = sorted({l.split("mechanism=")[1].split()[0] for l in r.stdout.splitlines() if l.startswith("VIOLATION") and "mechanism=" in l})
         out["checks"][c] = {"exit": r.returncode, "status": {0: "MISSED", 1: "caught", 2: "INCONCLUSIVE"}.get(r.returncode, "?"), "wall_s": round(time.time() - t0, 1), "mechanisms": mech[:8]}
-        if saved is not None:
-            open(evp, "w").write(saved)
 finally:
     shutil.rmtree(scratch, ignore_errors=True)
 print(json.dumps(out, indent=1))
